@@ -211,7 +211,7 @@ struct Client
 	std::vector<Resp> frames;
 	std::vector<char> rbuf;
 	bool evaluated = false;
-	std::int64_t t_connected = -1, t_eof = -1;
+	std::int64_t t_started = -1, t_connected = -1, t_eof = -1;
 };
 
 struct Scenario
@@ -223,7 +223,6 @@ struct Scenario
 	Site site;
 	std::vector<std::unique_ptr<Client>> clients;
 	std::int64_t stop_at = -1; // handler-execution count at which stop() is called (-1: never)
-	bool abandon_large = false; // --mode abandon: the first client leaves without reading a response larger than the initial window
 	std::string desc;
 };
 
@@ -508,7 +507,7 @@ struct World
 
 	void start_client(Client& c)
 	{
-		c.started = true;
+		c.started = true; c.t_started = now_ns();
 		c.sock.reset(new ip::tcp::socket(*cli_ios));
 		c.timer.reset(new asio::high_resolution_timer(*cli_ios));
 		c.rbuf.assign(c.rbuf_size, 0);
@@ -733,8 +732,27 @@ struct World
 		}
 		// ---- successive clients: everybody must have been accepted, unless the server is (by its
 		// design) stuck on a stalled request or was stopped
-		bool wedged = false, parked_by_abandon = false;
+		bool wedged = false;
 		for (auto& cp : sc.clients) if (cp->connected && cp->end_state == E_STALLED) wedged = true;
+		// Known class (KNOWN_FINDINGS: ...:previous-client-left-without-reading-large-response), decided from
+		// what was observed, not from the generator's intent: the LAST connection the server accepted (clients
+		// are accepted in the order their connects were issued, not in id order) belongs to a client that
+		// closed by itself before it had received its whole response, and that response is larger than the
+		// initial window (2 x MSS), so the server's async_write blocked with nobody left to ACK. Anything
+		// else that leaves a connect unanswered keeps the generic key.
+		Client* last_accepted = nullptr;
+		for (auto& cp : sc.clients)
+			if (cp->connected && (!last_accepted || cp->t_connected > last_accepted->t_connected
+				|| (cp->t_connected == last_accepted->t_connected && cp->t_started > last_accepted->t_started))) last_accepted = cp.get();
+		bool parked_by_abandon = false; std::size_t parked_resp = 0;
+		if (last_accepted && last_accepted->policy == P_ABANDON && last_accepted->closed && !last_accepted->eof && !last_accepted->exp.empty())
+		{
+			Exp const& e = last_accepted->exp[0];
+			parked_resp = e.has_full ? e.full.size() : e.body.size();
+			parked_by_abandon = parked_resp > std::size_t(2 * sc.mtu) && last_accepted->rx.size() < parked_resp
+				&& last_accepted->pos >= last_accepted->req_end[0];
+		}
+		bool parked_reported = false;
 		for (auto& cp : sc.clients)
 		{
 			Client& c = *cp;
@@ -748,14 +766,21 @@ struct World
 			{
 				// which earlier connection ended how?
 				std::string prev = "first client";
-				for (auto& pp : sc.clients) if (pp->id == c.id - 1) prev = fmt("previous connection ended by %s", pp->policy == P_NORMAL ? (pp->end_state == E_OPEN ? "client close" : pp->close_why) : pp->policy == P_EOF_PARTIAL ? "client EOF mid-request" : "client abandoning");
-				// once the server is parked by the known abandon defect no later client can be judged
-				if (parked_by_abandon) { R().count("clients_not_judged_after_stall_or_stop"); continue; }
-				bool prev_left_large = false;
-				for (auto& pp : sc.clients) if (pp->id == c.id - 1 && pp->policy == P_ABANDON && sc.abandon_large) prev_left_large = true;
-				if (prev_left_large) parked_by_abandon = true;
-				viol(prev_left_large ? "next-client-not-accepted:previous-client-left-without-reading-large-response" : "next-client-not-accepted"
-					, fmt("client %d: connect still unanswered at quiescence (%s)", c.id, prev.c_str()));
+				Client const* before = nullptr; // the connection accepted last before this connect was issued (or at all)
+				for (auto& pp : sc.clients) if (pp->connected && (!before || pp->t_connected > before->t_connected)) before = pp.get();
+				for (auto& pp : sc.clients) if (pp.get() == before) prev = fmt("last accepted connection: client %d, ended by %s", pp->id, pp->policy == P_NORMAL ? (pp->end_state == E_OPEN ? "client close" : pp->close_why) : pp->policy == P_EOF_PARTIAL ? "client EOF mid-request" : "client abandoning");
+				if (parked_by_abandon)
+				{
+					// every client still waiting waits behind the parked connection: one report, the rest is not judged
+					if (parked_reported) { R().count("clients_not_judged_after_stall_or_stop"); continue; }
+					parked_reported = true;
+					R().count("cases_with_server_parked_by_abandoned_large_response");
+					viol("next-client-not-accepted:previous-client-left-without-reading-large-response"
+						, fmt("client %d: connect still unanswered at quiescence; the last connection accepted is client %d's, which closed after sending its request "
+							"having received %zu of a %zu-byte response (2 x MSS = %d)", c.id, last_accepted->id, last_accepted->rx.size(), parked_resp, 2 * sc.mtu));
+					continue;
+				}
+				viol("next-client-not-accepted", fmt("client %d: connect still unanswered at quiescence (%s)", c.id, prev.c_str()));
 			}
 		}
 		if (wedged) R().count("cases_with_server_parked_on_stalled_request");
@@ -948,7 +973,6 @@ void run_case(Args const& a, std::uint64_t c)
 		{
 			// a client that sends one request for a large response and goes away without reading
 			c->policy = P_ABANDON; c->reqs.clear(); c->tail.clear();
-			sc.abandon_large = true;
 			sc.site.pad2 = 3 * sc.mtu + int(g.range(0, 4000));
 			c->reqs.push_back(make_req(K_HANDLER, sc.site, "GET", "/dir/h2", "big", "", false, ""));
 			finish_script(*c); apply_model(*c, sc.keepalive); gen_cuts(g, *c);
